@@ -56,6 +56,12 @@ pub(super) struct Stream {
     /// Task tracking additional send capacity (i.e. window updates).
     send_task: Option<Waker>,
 
+    /// Task waiting for this stream to be opened (`poll_ready` on the request
+    /// handle while the stream is queued behind the concurrency limit). Kept
+    /// apart from `send_task`, which the stream's own `SendStream` uses from
+    /// a possibly different task.
+    open_task: Option<Waker>,
+
     /// Frames pending for this stream being sent to the socket
     pub pending_send: buffer::Deque,
 
@@ -189,6 +195,7 @@ impl Stream {
             requested_send_capacity: 0,
             buffered_send_data: 0,
             send_task: None,
+            open_task: None,
             pending_send: buffer::Deque::new(),
             is_pending_send_capacity: false,
             next_pending_send_capacity: None,
@@ -394,6 +401,13 @@ impl Stream {
         if let Some(task) = self.send_task.take() {
             task.wake();
         }
+        if let Some(task) = self.open_task.take() {
+            task.wake();
+        }
+    }
+
+    pub fn wait_open(&mut self, cx: &Context) {
+        self.open_task = Some(cx.waker().clone());
     }
 
     pub fn wait_send(&mut self, cx: &Context) {
